@@ -528,6 +528,10 @@ def _with_model(q, disc):
 def _check_monitors(r, traj, off, N, stats, bad, prefix_ok):
     for ent in r.mons:
         f = ent["frequency"]
+        if not (len(ent["it"]) == len(ent["time"]) == len(ent["value"])):
+            bad("P5", "monitor '%s': %d iterations, %d times and %d values recorded (entries must stay together)" %
+                (ent["name"], len(ent["it"]), len(ent["time"]), len(ent["value"])), "%s/%s/%s/aligned" % (r.cls, ent["type"], ent["level"]))
+            continue
         new_it = ent["it"][ent["before"]:]
         new_t = ent["time"][ent["before"]:]
         new_v = ent["value"][ent["before"]:]
